@@ -463,3 +463,11 @@ M('c06f-req-line-end-batched', 'C06', 'break', RQ,
 M('c06f-account-first-keep', 'C06', 'keep', RQ,
   '    connp->in_current_read_offset += bytes_to_consume;\n    connp->in_current_consume_offset += bytes_to_consume;\n    connp->in_stream_offset += bytes_to_consume;\n    connp->in_tx->request_message_len += bytes_to_consume;\n    connp->in_chunked_length -= bytes_to_consume;',
   '    connp->in_tx->request_message_len += bytes_to_consume;\n    connp->in_current_read_offset += bytes_to_consume;\n    connp->in_current_consume_offset += bytes_to_consume;\n    connp->in_stream_offset += bytes_to_consume;\n    connp->in_chunked_length -= bytes_to_consume;')
+
+# ---------------- C03.f
+M('c03f-res-clear-keeps-size', 'C03', 'break', RS,
+  '        connp->out_buf = NULL;\n        connp->out_buf_size = 0;', '        connp->out_buf = NULL;', 'C03.f')
+M('c03f-first-size-includes-header', 'C03', 'break', RQ,
+  '        memcpy(connp->in_buf, data, len);\n        connp->in_buf_size = len;', '        memcpy(connp->in_buf, data, len);\n        connp->in_buf_size = newlen;', 'C03.f')
+M('c03f-size-first-keep', 'C03', 'keep', RQ,
+  '        connp->in_buf = NULL;\n        connp->in_buf_size = 0;', '        connp->in_buf_size = 0;\n        connp->in_buf = NULL;')
